@@ -119,6 +119,17 @@ PARAM_JUNK: list[tuple[str, Any]] = [
     ("param-optional-path", {"name": "zz", "in": "path", "schema": {"type": "string"}}),
     ("param-header-array", {"name": "zz", "in": "header", "schema": {"type": "array", "items": {"type": "string"}}}),
     ("param-content", {"name": "zz", "in": "query", "content": {"application/json": {"schema": {"type": "object"}}}}),
+    ("param-content-bad-ctype", {"name": "zz", "in": "query", "content": {"json": {"schema": {"type": "string"}}}}),
+    ("param-content-empty-ctype", {"name": "zz", "in": "query", "content": {"": {"schema": {"type": "string"}}}}),
+    ("param-content-wild", {"name": "zz", "in": "header", "content": {"*/*": {"schema": {"type": "string"}}}}),
+    ("param-content-no-schema", {"name": "zz", "in": "query", "content": {"application/json": {}}}),
+    ("param-content-empty", {"name": "zz", "in": "cookie", "content": {}}),
+    ("param-content-two", {"name": "zz", "in": "query", "content": {"application/json": {"schema": {"type": "string"}}, "text/plain": {"schema": {"type": "integer"}}}}),
+    ("param-content-and-schema", {"name": "zz", "in": "query", "schema": {"type": "string"}, "content": {"application/json": {"schema": {"type": "integer"}}}}),
+    ("param-content-list", {"name": "zz", "in": "query", "content": []}),
+    ("param-content-ref", {"name": "zz", "in": "query", "content": {"application/json": {"schema": {"$ref": "#/components/schemas/Nope"}}}}),
+    ("param-style-deep", {"name": "zz", "in": "query", "style": "deepObject", "explode": True, "schema": {"type": "object", "properties": {"a": {"type": "string"}}}}),
+    ("param-style-junk", {"name": "zz", "in": "query", "style": "wibble", "explode": "yes", "allowReserved": 1, "schema": {"type": "array", "items": {"type": "string"}}}),
     ("param-ref-dangling", {"$ref": "#/components/parameters/Nope"}),
     ("param-ref-schema", {"$ref": "#/components/schemas/Nope"}),
     ("param-name-client", {"name": "client", "in": "query", "schema": {"type": "string"}}),
@@ -268,6 +279,9 @@ KEY_JUNK: list[tuple[str, Any]] = [
 ]
 KEYED_PARENTS = ("paths", "properties", "schemas", "responses", "content", "parameters", "requestBodies", "securitySchemes")
 
+# a parameter described with `content` instead of `schema` (legal OpenAPI; the media-type key may be anything)
+PARAM_CONTENT_MEDIA = ["application/json", "text/plain", "json", "application", "", "*/*", "application/json; charset=utf-8", ";;;", "a/b/c", "APPLICATION/JSON", "application/vnd.x+json"]
+
 CYCLES = ["schemas-mutual-allof", "schemas-mutual-items", "schemas-self-ref-alias", "bodies-cycle", "responses-chain", "parameters-chain", "schemas-ref-chain",
           "bodies-rho-self", "bodies-rho-two", "bodies-long-chain", "responses-rho", "parameters-rho", "schemas-rho-allof", "schemas-rho-items", "schemas-cycle-with-bad-piece"]
 
@@ -294,6 +308,9 @@ def faults_at(doc: Any, p: tuple) -> list[dict]:
     if kind == "schema":
         for j in ("array-no-items", "enum-mixed", "allof-self", "string-with-properties"):
             faults.append({"t": "tree", "op": "merge", "ptr": lp, "junk": f"schema:{j}"})
+    if kind == "parameter" and isinstance(v, dict) and "schema" in v:
+        for i in range(len(PARAM_CONTENT_MEDIA)):
+            faults.append({"t": "tree", "op": "to-content", "ptr": lp, "media": i})
     if len(p) >= 2 and isinstance(p[-1], str) and p[-2] in KEYED_PARENTS:
         for name, _ in KEY_JUNK:
             faults.append({"t": "tree", "op": "rename-key", "ptr": lp, "junk": name})
@@ -409,6 +426,11 @@ def apply_tree_fault(doc: Any, f: dict) -> Any:
         items = [(new_key if k == key else k, v) for k, v in parent.items()]  # keep the position in the map
         parent.clear()
         parent.update(items)
+    elif op == "to-content":
+        if not isinstance(parent[key], dict) or "schema" not in parent[key]:
+            raise FaultNotApplicable("no schema to move under content")
+        sch = parent[key].pop("schema")
+        parent[key]["content"] = {PARAM_CONTENT_MEDIA[int(f["media"]) % len(PARAM_CONTENT_MEDIA)]: {"schema": sch}}
     elif op == "merge":
         if not isinstance(parent[key], dict):
             raise FaultNotApplicable("merge into non-dict")
@@ -541,7 +563,7 @@ def sample_tree_faults(doc: Any, r: random.Random, k: int) -> list[dict]:
                 if looks_like(get_at(doc, p), p) is not None:
                     break
             fl = faults_at(doc, p)
-            targeted = [f for f in fl if ":" in str(f.get("junk", "")) or f["op"] in ("merge", "rename-key")]
+            targeted = [f for f in fl if ":" in str(f.get("junk", "")) or f["op"] in ("merge", "rename-key", "to-content")]
             out.append(r.choice(targeted or fl))
         else:
             out.append(r.choice(faults_at(doc, r.choice(ptrs))))
